@@ -984,6 +984,7 @@ impl<'a> Parser<'a> {
     };
 
     let previous = mem::replace(&mut self.fun_kind, FunKind::Fun);
+    let loop_depth = mem::replace(&mut self.loop_depth, 0);
     let lambda = self.fun_body(BlockReturn::Can).map(|body| {
       self.atom_expr(Primary::Lambda(self.node(Fun::new(
         self.let_name.clone(),
@@ -993,6 +994,7 @@ impl<'a> Parser<'a> {
       ))))
     });
 
+    self.loop_depth = loop_depth;
     self.fun_kind = previous;
     lambda
   }
